@@ -503,19 +503,27 @@ impl Python {
         if !comments.is_empty() {
             let comment: String = {
                 if is_docstring {
+                    // the text sits inside a (non-raw) triple-quoted string: a backslash or a run of
+                    // three quotes in it must not be interpreted by Python
                     format!(
                         "{indent}\"\"\"\n{indented_comments}\n{indent}\"\"\"",
                         indent = indent,
                         indented_comments = comments
                             .iter()
-                            .map(|v| format!("{}{}", indent, v))
+                            .map(|v| format!(
+                                "{}{}",
+                                indent,
+                                v.replace('\\', "\\\\").replace("\"\"\"", "\\\"\\\"\\\"")
+                            ))
                             .collect::<Vec<String>>()
                             .join("\n"),
                     )
                 } else {
+                    // one doc string can span several lines: every line has to be a comment of its own
                     comments
                         .iter()
-                        .map(|v| format!("{}# {}", indent, v))
+                        .flat_map(|v| v.split('\n'))
+                        .map(|v| format!("{}# {}", indent, v.trim_end_matches('\r')))
                         .collect::<Vec<String>>()
                         .join("\n")
                 }
